@@ -18,7 +18,7 @@ theorem emitInv_fresh (c : ConstId) (kd : Kind) (pers : Bool) :
     EmitInv c { const := c, kind := kd, persist := pers } :=
   ⟨rfl, fun k n hn => by simp [aget] at hn, fun k n hn => by simp [aget] at hn,
    fun k n cid ch vt v hn => by simp [aget] at hn, fun k n cid dv vt v hn => by simp [aget] at hn,
-   numDigits_zero, fun d hd => by simp at hd⟩
+   numDigits_zero_le, fun d hd => by simp at hd, fun k n hn => by simp [aget] at hn⟩
 
 /-- **C05 (global), one step**: under the invariant, every emitted line is the canonical,
     re-decodable encoding of a message valid for the configured version -/
